@@ -141,6 +141,15 @@ def run(c, facts, tier):
                 c.ob("C02.type", T, "several types are joined by (or …)", ok_j, "`%s` with separator %r" % (txt, joiner), nontrivial=False)
     c.ob("C02.type", T, "a type list is rendered by joining its elements", njoin >= 1, "%d joined renderings of Test::Type" % njoin, nontrivial=False)
     c.ob("C02.type", T, "each type test is (= (logand (mode) S_IFMT) type-bits)", ok_t, "element template `%s` (S_IFMT = %s)" % (det, SIFMT))
+    # C02.elements: what each element of a joined collection contributes (the rows above only say that it is joined)
+    nel = 0
+    for key, want_subs in sorted((spec.get("elements") or {}).items()):
+        got_subs = codegen.element_tables(codegen.table(facts, key))
+        c.ob("C02.elements", key, "joined collections in the emitted text", len(got_subs) == len(want_subs), "%d joined collection(s) in the rows of %s, reference %d" % (len(got_subs), key, len(want_subs)), nontrivial=False)
+        for gs, ws in zip(got_subs, want_subs):
+            c.ob("C02.elements", key, "join #%d of [%s]: collection and separator" % (ws["index"], ws["row"]), gs["sep"] == ws["sep"] and gs["of"] == ws["of"], "joins %s with %r; reference %s with %r" % (gs["of"], gs["sep"], ws["of"], ws["sep"]), nontrivial=False)
+            nel += codegen.equiv_tables(c, "C02.elements", key, gs["rows"], ws["rows"], "element of join #%d (%s)" % (ws["index"], ws["of"]), got_fails=gs.get("fails", ()), want_fails=ws.get("fails", ()))
+    c.floor("element cases of joined collections", nel, 40)
     # C02.op / action / expression
     for key, rule, floor in (("<Operator as TargetScheme>::compile", "C02.op", 5), ("<Action as TargetScheme>::compile", "C02.action", 12), ("<Expression as TargetScheme>::compile", "C02.op", 5)):
         n = codegen.diff_tables(c, rule, key, codegen.plain(codegen.table(facts, key)), spec["tables"][key], "template", fields=("tokens", "outcome"))
